@@ -368,7 +368,11 @@ fn explore_one(run: &mut Run, depth: usize, make: fn() -> Box<dyn Fb>) {
     }
     let m = M { acts: alphabet(proto.w() as i32, proto.h() as i32, run.tier.is_thorough()), make };
     let inits = vec![Init { config: name.clone(), sentinel: false }, Init { config: name, sentinel: true }];
-    run.explore("write-histories", "per configuration (7 depths x 2 data orders x sizes {1x1,3x2,5x3,8x2,9x2} x buffer {exact,+3 bytes}): all sequences of set_pixel (corners, middle, 4 outside points x 3 values) / draw_iter / fill_solid partly outside / clear / stroked rectangle from the zeroed and the 0xA5-filled framebuffer, deduplicated on the byte array", &m, inits, depth);
+    let stats = run.explore("write-histories", "per configuration (7 depths x 2 data orders x sizes {1x1,3x2,5x3,8x2,9x2} x buffer {exact,+3 bytes}): all sequences of set_pixel (corners, middle, 4 outside points x 3 values) / draw_iter / fill_solid partly outside / clear / stroked rectangle from the zeroed and the 0xA5-filled framebuffer, deduplicated on the byte array", &m, inits.clone(), depth);
+    if run.tier.is_thorough() || proto.w() == 3 {
+        // second engine over the same transition function (quick: the 3x2 configurations only)
+        run.cross_check_stateright("write-histories", std::sync::Arc::new(m), inits, depth, &stats);
+    }
 }
 
 fn run_part(run: &mut Run) {
